@@ -17,7 +17,8 @@ META = {
         'exception and no finally returns; R3 in remove() all DELETEs of one matched lexicon share one `with conn` '
         'and the progress handler is reset in a finally; R4 scanning, pre-check and parsing complete before the '
         'transaction block is entered; R5 connect() only hands out the pooled connection. SQLite\'s own rollback '
-        'is trusted. R6 the add/remove route keeps no state outside the database (nothing a rollback cannot undo).'),
+        'is trusted. R6 the add/remove route keeps no state outside the database (nothing a rollback cannot undo). '
+        'R7 every writing statement starts with INSERT/UPDATE/DELETE/REPLACE, the keywords for which sqlite3 opens its implicit transaction.'),
     'decides': ['one transaction per resource', 'no commit point inside', 'failures propagate', 'remove is one '
                 'transaction per lexicon', 'parse before write', 'pooled connection', 'no state outside the transaction'],
     'not_decided': ['correctness of SQLite rollback', 'crash (power loss) durability: PRAGMA synchronous=OFF is outside the property'],
@@ -392,6 +393,31 @@ def r6_no_state_outside_transaction(ctx, res):
         raise AnalysisError(f'only {n} functions of wn/_add.py and wn/_db.py examined for state outside the database')
 
 
+def r7_writes_open_the_transaction(ctx, res):
+    """python's sqlite3 (legacy transaction control, the mode wn uses) issues its implicit BEGIN only before a statement whose
+    first keyword is INSERT, UPDATE, DELETE or REPLACE.  A write spelled `WITH ... DELETE` / `WITH ... INSERT` runs in
+    autocommit when it is the first write of the block and is committed at once: a later failure rolls back only what
+    followed it.  Every writing statement of the importer therefore starts with one of the four keywords."""
+    n = 0
+    for s in ctx.sites:
+        if s.func.module.short != '_add':
+            continue
+        for v in s.variants:
+            st = v.stmt
+            if st is None or not st.is_write:
+                continue
+            n += 1
+            first = (v.sql.split() or [''])[0].upper()
+            key = f'write-keyword:{s.func.key}:{first}:{st.target}'
+            res.inst(key, s.loc, f'{first} ... {st.verb} {st.target}')
+            if first not in ('INSERT', 'UPDATE', 'DELETE', 'REPLACE'):
+                res.find(key, s.loc, f'{s.func.qualname} writes to {st.target} with a statement that starts with {first}: sqlite3 does not '
+                                     f'open its implicit transaction for it, so it is committed immediately and survives a rollback of the '
+                                     f'enclosing `with conn:` block')
+    if n < 30:
+        raise AnalysisError(f'only {n} writing statement variants found in wn/_add.py')
+
+
 RULES = [
     ('C06-R1', r1_one_transaction, 25),
     ('C06-R2', r2_failures_propagate, 1),
@@ -399,4 +425,5 @@ RULES = [
     ('C06-R4', r4_parse_before_write, 5),
     ('C06-R5', r5_pooled_connection, 2),
     ('C06-R6', r6_no_state_outside_transaction, 40),
+    ('C06-R7', r7_writes_open_the_transaction, 30),
 ]
